@@ -1,11 +1,118 @@
-import PyresampleModel.Model.Core
+import PyresampleModel.Model.Grid
 
 /-
-  C14 — model (stub: not built yet).
+  C14 — `DynamicAreaDefinition.compute_domain` (resolution branch and shape branch),
+  `_update_corners_for_full_extent`, and the antimeridian corner rewrite.
+  Corners are centres of the outermost data points in projection coordinates.
 -/
 namespace PyresampleModel.C14
 
+structure Corners where
+  xmin : Rat
+  ymin : Rat
+  xmax : Rat
+  ymax : Rat
+deriving Repr, DecidableEq
+
+structure Domain where
+  x0 : Rat
+  y0 : Rat
+  x1 : Rat
+  y1 : Rat
+  w  : Int
+  h  : Int
+deriving Repr, DecidableEq
+
+/-- `compute_domain(..., resolution=(rx, ry))` -/
+def domainRes (c : Corners) (rx ry : Rat) : Domain :=
+  let x0 := (pyFloor ((c.xmin - rx / 2) / rx) : Rat) * rx
+  let y0 := (pyFloor ((c.ymin - ry / 2) / ry) : Rat) * ry
+  let x1 := (pyCeil ((c.xmax + rx / 2) / rx) : Rat) * rx
+  let y1 := (pyCeil ((c.ymax + ry / 2) / ry) : Rat) * ry
+  { x0 := x0, y0 := y0, x1 := x1, y1 := y1,
+    w := roundHalfEven ((x1 - x0) / rx), h := roundHalfEven ((y1 - y0) / ry) }
+
+/-- `compute_domain(..., shape=(height, width))` -/
+def domainShape (c : Corners) (height width : Nat) : Domain :=
+  let rx := (c.xmax - c.xmin) / ((width : Rat) - 1)
+  let ry := (c.ymax - c.ymin) / ((height : Rat) - 1)
+  { x0 := c.xmin - rx / 2, y0 := c.ymin - ry / 2, x1 := c.xmax + rx / 2, y1 := c.ymax + ry / 2,
+    w := width, h := height }
+
+/-- `_update_corners_for_full_extent` when the x corners are `None` (global extents): shape given -/
+def fullExtentShape (west east : Rat) (c : Corners) (width : Nat) : Corners :=
+  let xr := (east - west) / width
+  { c with xmin := west + xr / 2, xmax := east - xr / 2 }
+
+/-- … resolution given -/
+def fullExtentRes (west east : Rat) (c : Corners) (rx : Rat) : Corners :=
+  { c with xmin := west + rx / 2, xmax := east - rx / 2 }
+
+/-- `x % 360` -/
+def wrap360 (x : Rat) : Rat := x - 360 * (pyFloor (x / 360) : Rat)
+
+def minL : List Rat → Rat
+  | [] => 0
+  | x :: xs => xs.foldl (fun a b => if b < a then b else a) x
+def maxL : List Rat → Rat
+  | [] => 0
+  | x :: xs => xs.foldl (fun a b => if a < b then b else a) x
+
+/-- `_compute_new_x_corners_for_antimeridian` for the modes that keep the data bounds:
+`modify_extents` (shift = 0) and `modify_crs` (shift = 180) -/
+def antimeridianX (xs : List Rat) (shift : Rat) : Rat × Rat :=
+  let ws := xs.map wrap360
+  (minL ws - shift, maxL ws - shift)
+
+/-! ### driver -/
+open Wire
+
+def showDom (d : Domain) : String :=
+  s!"{showRat d.x0} {showRat d.y0} {showRat d.x1} {showRat d.y1} {d.w} {d.h}"
+
+def corners? : List String → Option (Corners × List String)
+  | a :: b :: c :: d :: rest => do
+    let a ← rat? a; let b ← rat? b; let c ← rat? c; let d ← rat? d
+    some (⟨a, b, c, d⟩, rest)
+  | _ => none
+
 def handle : List String → Option String
+  | "res" :: rest => do
+    let (c, tl) ← corners? rest
+    match tl with
+    | [rx, ry] =>
+      let rx ← rat? rx; let ry ← rat? ry
+      if rx = 0 ∨ ry = 0 then some "err:zerodiv" else some (showDom (domainRes c rx ry))
+    | _ => none
+  | "shape" :: rest => do
+    let (c, tl) ← corners? rest
+    match tl with
+    | [h, w] =>
+      let h ← nat? h; let w ← nat? w
+      if h = 1 ∨ w = 1 then some "err:zerodiv" else some (showDom (domainShape c h w))
+    | _ => none
+  | "fullshape" :: west :: east :: rest => do
+    let west ← rat? west; let east ← rat? east
+    let (c, tl) ← corners? rest
+    match tl with
+    | [h, w] =>
+      let h ← nat? h; let w ← nat? w
+      if h ≤ 1 ∨ w ≤ 1 then some "err:zerodiv" else some (showDom (domainShape (fullExtentShape west east c w) h w))
+    | _ => none
+  | "fullres" :: west :: east :: rest => do
+    let west ← rat? west; let east ← rat? east
+    let (c, tl) ← corners? rest
+    match tl with
+    | [rx, ry] =>
+      let rx ← rat? rx; let ry ← rat? ry
+      if rx = 0 ∨ ry = 0 then some "err:zerodiv" else some (showDom (domainRes (fullExtentRes west east c rx) rx ry))
+    | _ => none
+  | "anti" :: shift :: rest => do
+    let shift ← rat? shift
+    let (xs, tl) ← takeList rat? rest
+    if tl ≠ [] ∨ xs = [] then none else
+    let r := antimeridianX xs shift
+    some (showRat r.1 ++ " " ++ showRat r.2)
   | _ => none
 
 end PyresampleModel.C14
